@@ -14,8 +14,8 @@ Model state: per ballot (position, value).  Checked on every snapshot / step:
      a ballot that moved in a step came from a candidate transferred in that step and now stands with a
      hopeful candidate (or is exhausted); ballots standing elsewhere are untouched
  I3  surplus transfer of X (tally v, surplus sigma=v-quota at the previous snapshot): every ballot that stood with X
-     gets new <= old*sigma/v (never up) and new > old*sigma/v - (1 + scale/v) units (the loss of one truncated
-     product and one truncated quotient; <= 2 units whenever v >= 1 vote; exactly old*sigma/v under rational);
+     gets new <= old*sigma/v (never up) and new > old*sigma/v - 2 units (two truncations, whichever of product / quotient /
+     surplus fraction the rule truncates first; exactly old*sigma/v under rational);
      afterwards tally(X) == quota.  Exclusion of Y: Y's ballots move on at unchanged value
  I4  0 <= value <= 1 and no value ever increases
 """
@@ -29,7 +29,7 @@ class C06(Check):
     pid = 'C06'
     level = 'model_checking'
     rule = ('Gregory-family rules on U(3,<=5) x seats x two tie orders, the wigm arithmetic menu on U(3,<=4), 4-candidate weighted profiles '
-            'W(4,2,3,{1,2}) and weighted W(3,3,3,{2,3,5}), bullet piles BU(4) (thorough: W(3,3,3,{1,2,3,5,8}), W(4,2,4,{1,2,3}), W(4,4,3,{1,2,3}), U(3,6..7)); '
+            'W(4,2,3,{1,2}) and weighted W(3,3,3,{2,3,5}), bullet piles BU(4), the ballot files shipped with the repository (thorough: all of them; W(3,3,3,{1,2,3,5,8}), W(4,2,4,{1,2,3}), W(4,4,3,{1,2,3}), U(3,6..7)); '
             'states = distinct (statuses, tallies, ballot positions+values) snapshots, transitions = distinct consecutive pairs, '
             'traces_validated = real counts stepped to the end in lock-step with the ballot model. non-trivial = counts in which some ballot was re-valued')
     assumptions = ['ballots are observed through Election.ballots[*].index/.weight/.multiplier beside every logged action; '
@@ -50,6 +50,7 @@ class C06(Check):
         yield from families.seats_ties(3, spaces.W(3, 3, 3, (2, 3, 5) if tier == 'quick' else (1, 2, 3, 5, 8)), seats=(1, 2), ties='id',
                                        cfgs=G + (menu[::4] if tier == 'quick' else menu))
         yield from families.seats_ties(4, spaces.BU(4), seats=(1, 2, 3), ties='id', cfgs=G)
+        yield from families.repo_files(G, max_bytes=4000 if tier == 'quick' else 10 ** 7)
         if tier == 'thorough':
             yield from families.seats_ties(4, spaces.W(4, 2, 4, (1, 2, 3)), seats=(2, 3), ties='id', cfgs=G + menu[::6])
             yield from families.seats_ties(3, spaces.U(3, 6, 6), cfgs=G)
@@ -119,6 +120,12 @@ class C06(Check):
                         c = rankings[k][ix]
                         stand[c] = stand.get(c, 0) + w * mults[k]
                         nstand[c] = nstand.get(c, 0) + 1
+                    # I2a passed-over entries are not continuing
+                    for pos in range(min(ix, len(rankings[k]))):
+                        if s.st[rankings[k][pos]] == 'hopeful':
+                            viol('skipped-continuing', 'ballot %d %s stands at position %d but passed over continuing candidate %s'
+                                 % (k, rankings[k], ix, rankings[k][pos]), s)
+                            break
                 for c in transferred:
                     if nstand.get(c):
                         viol('stands-with-transferred', '%d ballot line(s) still stand with candidate %s (%s) whose ballots were transferred' % (nstand[c], c, s.st[c]), s)
@@ -128,12 +135,6 @@ class C06(Check):
                     for c, x in s.st.items():
                         if x == 'defeated' and nstand.get(c):
                             viol('stands-with-defeated', '%d ballot line(s) still stand with candidate %s, excluded in an earlier round' % (nstand[c], c), s)
-                            break
-                    # I2a passed-over entries are not continuing
-                    for pos in range(min(ix, len(rankings[k]))):
-                        if s.st[rankings[k][pos]] == 'hopeful':
-                            viol('skipped-continuing', 'ballot %d %s stands at position %d but passed over continuing candidate %s'
-                                 % (k, rankings[k], ix, rankings[k][pos]), s)
                             break
                 for c, v in s.vote.items():
                     sc = stand.get(c, 0)
@@ -192,7 +193,7 @@ class C06(Check):
                                 elif new > ideal:
                                     viol('transfer-value-up', 'ballot %d new value %s units exceeds old*surplus/tally = %s units (old %s, surplus %s, tally %s)'
                                          % (k, new, float(ideal), old, sigma, v), s)
-                                elif ideal - new >= 1 + Fraction(scale, v):
+                                elif ideal - new >= 2:
                                     viol('transfer-value-low', 'ballot %d new value %s units is more than the two truncations below old*surplus/tally = %s'
                                          % (k, new, float(ideal)), s)
                                 if new < old:
